@@ -172,7 +172,8 @@ package ucfg
 //@ ensures typeof(r) == typeof(self)
 
 //@ func (*fields).append
-//@ props C01 C10 C15
+//@ props C01 C10 C15 C14
+//@ tagged-only C14
 //@ requires f != nil
 //@ requires len(f.a) + len(a) < 9223372036854775807
 //@ requires base(a) != base(f.a)
@@ -184,7 +185,7 @@ package ucfg
 //@ ensures [copiesAbs] forall k int :: len(old(f.a)) <= k && k < len(f.a) ==> copyOf(f.a[k], old(a[k - len(old(f.a))]))
 //@ ensures [fresh] len(a) > 0 ==> fresh(f.a)
 //@ ensures [same] len(a) == 0 ==> f.a == old(f.a)
-//@ ensures [ctx @C15,C10,C01] forall j int :: 0 <= j && j < len(a) ==> cctx(f.a[len(old(f.a)) + j]).parent == parent && cctx(f.a[len(old(f.a)) + j]).field == itoa(len(old(f.a)) + j)
+//@ ensures [ctx @C15,C10,C01,C14] forall j int :: 0 <= j && j < len(a) ==> cctx(f.a[len(old(f.a)) + j]).parent == parent && cctx(f.a[len(old(f.a)) + j]).field == itoa(len(old(f.a)) + j)
 //@ loop 1 invariant 0 <= i && i <= count && l == len(old(f.a)) + i && len(f.a) == l
 //@ loop 1 invariant i > 0 ==> fresh(f.a)
 //@ loop 1 invariant i == 0 ==> f.a == old(f.a)
@@ -210,8 +211,8 @@ package ucfg
 //@ ensures [dict] to.fields.d == old(to.fields.d)
 
 //@ func mergeConfigPrependArr
-//@ props C01 C10 C15
-//@ tagged-only C15
+//@ props C01 C10 C15 C14
+//@ tagged-only C15 C14
 //@ requires to != nil && to.fields != nil && from != nil && from.fields != nil
 //@ requires len(to.fields.a) + len(from.fields.a) < 9223372036854775807
 //@ requires forall j int :: 0 <= j && j < len(from.fields.a) ==> from.fields.a[j] != nil
@@ -222,8 +223,8 @@ package ucfg
 //@ ensures [len] len(old(from.fields.a)) > 0 ==> len(to.fields.a) == len(old(to.fields.a)) + len(old(from.fields.a))
 //@ ensures [BthenA_B] len(old(from.fields.a)) > 0 ==> forall j int :: 0 <= j && j < len(old(from.fields.a)) ==> copyOf(to.fields.a[j], old(from.fields.a[j]))
 //@ ensures [BthenA_A] len(old(from.fields.a)) > 0 ==> forall j int :: 0 <= j && j < len(old(to.fields.a)) ==> copyOf(to.fields.a[len(old(from.fields.a)) + j], old(to.fields.a[j]))
-//@ ensures [ctx_B @C15,C01,C10] len(old(from.fields.a)) > 0 ==> forall j int :: 0 <= j && j < len(old(from.fields.a)) ==> cctx(to.fields.a[j]).parent == subval(to) && cctx(to.fields.a[j]).field == itoa(j)
-//@ ensures [ctx_A @C15,C01,C10] len(old(from.fields.a)) > 0 ==> forall j int :: 0 <= j && j < len(old(to.fields.a)) ==> cctx(to.fields.a[len(old(from.fields.a)) + j]).parent == subval(to) && cctx(to.fields.a[len(old(from.fields.a)) + j]).field == itoa(len(old(from.fields.a)) + j)
+//@ ensures [ctx_B @C15,C01,C10,C14] len(old(from.fields.a)) > 0 ==> forall j int :: 0 <= j && j < len(old(from.fields.a)) ==> cctx(to.fields.a[j]).parent == subval(to) && cctx(to.fields.a[j]).field == itoa(j)
+//@ ensures [ctx_A @C15,C01,C10,C14] len(old(from.fields.a)) > 0 ==> forall j int :: 0 <= j && j < len(old(to.fields.a)) ==> cctx(to.fields.a[len(old(from.fields.a)) + j]).parent == subval(to) && cctx(to.fields.a[len(old(from.fields.a)) + j]).field == itoa(len(old(from.fields.a)) + j)
 //@ ensures [dict] to.fields.d == old(to.fields.d)
 
 //@ func mergeConfigReplaceArr
